@@ -3,9 +3,9 @@ package checks
 
 import (
 	"crypto/md5"
-	"math"
 	"encoding/json"
 	"fmt"
+	"math"
 	"os"
 	"sync/atomic"
 
